@@ -19,6 +19,7 @@ import (
 	"sort"
 	"strconv"
 	"strings"
+	"time"
 
 	at "github.com/DanielSvub/anytype"
 	"verif.local/simrt"
@@ -61,6 +62,7 @@ func runAsync(ch *simrt.Chooser, opt Options) RunResult {
 	cfg.SwitchPermille = []int{50, 200, 500, 800, 1000}[ch.Draw("switch-rate", 5)]
 	cfg.PCTDepth = 1 + ch.Draw("pct-depth", 3)
 	cfg.PCTHorizon = []int{30, 80, 200, 500}[ch.Draw("pct-horizon", 4)]
+	cfg.StallPermille = []int{0, 0, 20, 200}[ch.Draw("stall-rate", 4)]
 	cfg.KeyOrder = simrt.KeyPolicy(ch.Draw("key-order", int(simrt.NumKeyPolicies)))
 	scen := []int{0, 1, 2, 3, 4, 4, 5, 5}[ch.Draw("scenario", 8)]
 	if opt.Scenario >= 0 {
@@ -84,7 +86,7 @@ func runAsync(ch *simrt.Chooser, opt Options) RunResult {
 			width = 40 // beyond any small batch size a chunking implementation might use
 			res.Counters["size-class:wide"]++
 		case wc == 5:
-			width = []int{64, 65, 100, 128, 129, 256, 257, 320, 384, 512, 513, 600, 1024, 1025}[s.Draw("huge-width", 14)] // at and beyond larger batch sizes
+			width = []int{64, 65, 100, 128, 129, 256, 257, 320, 384, 512, 513, 600, 1024, 1025, 2048, 2049, 4097}[s.Draw("huge-width", 17)] // at and beyond larger batch sizes
 			res.Counters["size-class:huge"]++
 		}
 		exact := 0
@@ -141,6 +143,7 @@ func runAsync(ch *simrt.Chooser, opt Options) RunResult {
 	res.Finger = out.Fingerprint
 	res.NonTrivial = out.Goroutines >= 3 && out.Switches >= 2
 	res.Counters["sched:context-switches"] += out.Switches
+	res.Counters["sched:virtual-time-ms"] += int(out.VirtualNs / 1e6)
 	res.Counters["sched:goroutines-peak-sum"] += out.Goroutines
 	for k, v := range out.Probes {
 		res.Counters["probe:"+k] += v
@@ -156,8 +159,10 @@ func runAsync(ch *simrt.Chooser, opt Options) RunResult {
 			Msg: "no goroutine can run: " + strings.Join(out.Blocked, " ")})
 		return res
 	case simrt.OutStepCap:
-		res.Failures = append(res.Failures, Failure{Oracle: "no-return", Sig: "C15/no-return/" + where, Props: []string{"C15"},
-			Msg: fmt.Sprintf("run exceeded %d scheduler steps: %s", out.Steps, strings.Join(out.Blocked, " "))})
+		// Not a verdict: a step bound cannot tell a livelock from a polling loop that an unfair schedule or a long simulated
+		// delay keeps spinning. (A call that can never return because nobody will wake it is a deadlock, reported above.)
+		res.Failures = append(res.Failures, Failure{Oracle: "inconclusive", Sig: "C15/step-bound/" + where, Props: []string{"HARNESS"},
+			Msg: fmt.Sprintf("inconclusive: run exceeded %d scheduler steps (livelock, or a polling loop under an unfair schedule): %s", out.Steps, strings.Join(out.Blocked, " "))})
 		return res
 	case simrt.OutPanic:
 		res.Failures = append(res.Failures, Failure{Oracle: "goroutine-panic", Sig: "C15/goroutine-panic/" + where, Props: []string{"C15"},
@@ -269,6 +274,10 @@ func doForEachAsync(s *simrt.Sim, cl *asyncClient, c any, seq int) {
 		}
 		for ; y > 0; y-- {
 			simrt.Yield()
+		}
+		if s.Draw("cb-slow", 12) == 0 {
+			// a callback that takes simulated time (a library that stops waiting after a while returns early)
+			simrt.Sleep([]time.Duration{time.Millisecond, 20 * time.Millisecond, 300 * time.Millisecond, 2 * time.Second, 4 * time.Second, 45 * time.Second}[s.Draw("cb-slow-d", 6)])
 		}
 		if reentrant && s.Draw("cb-reenter-now", 3) == 0 {
 			reenter(s, c)
